@@ -538,7 +538,16 @@ def run_property(mod, tier, seed, replay=None):
         if not ok_t:
             broken.append(("gotrans", out_t[-1500:]))
         target = "theories/Properties/%s.vo" % pid
-        ok_b, out_b = coq_make([target])
+        # the model expressions may import modules outside the closure of the property file:
+        # build those too, so that a regenerated Gen/ file never leaves a stale .vo behind
+        extra_targets = []
+        for s_ in getattr(mod, "SUITES", []):
+            for imp in re.findall(r"Require\s+(?:Import|Export)\s+(.*?)\.(?:\s|$)", getattr(s_, "coq_imports", "") or "", re.S):
+                for name in imp.split():
+                    t = "theories/" + name.replace(".", "/") + ".vo"
+                    if os.path.exists(os.path.join(COQ, t[:-1])) and t not in extra_targets:
+                        extra_targets.append(t)
+        ok_b, out_b = coq_make([target] + extra_targets)
         model_ok = True
         if not ok_b:
             err = "\n".join(l for l in out_b.splitlines() if not l.startswith("COQ"))[-2500:]
@@ -624,8 +633,14 @@ def run_property(mod, tier, seed, replay=None):
             for i, why in r["mismatches"]:
                 broken.append(("correspondence %s/%s impl-vs-model" % (pid, s.name),
                                {"case": s.show(cases[i]), "detail": why}))
+            mism_ids = set(i for i, _ in r["mismatches"])
             for i, why in sorted(r["failures"].items()):
                 cls = s.finding_class(cases[i], why, r["impl"].get(i))
+                # a known finding is the behaviour of the pristine model G: if the implementation
+                # departs from G on this very case, the failure is not (only) the listed finding
+                if cls is not None and cls in known and i in mism_ids:
+                    why = why + " [inside known class %s, but the implementation differs from the model here]" % cls
+                    cls = None
                 if cls is not None and cls in known:
                     known_hits.setdefault(cls, (s, cases[i], why))
                 else:
